@@ -6,8 +6,13 @@ tie:    model AdeptModel/Tape.lean (jacFwdOmp/jacRevOmp/useOmp) <-> jacobian_for
         exact comparison on integer tapes for thread counts 1..16 and several block widths; hook H3 counts the blocks
         each OpenMP thread processed, so the evidence shows more than one thread really took part
 oracle: the implementation's own serial result (set_max_jacobian_threads(1)) and the product of statement matrices
+binary64: the ORDER of the floating-point operations is inside the model and the theorems (C13_*_lawfree: no ring law, any
+        carrier with + * 0 1 and any zero test).  Tapes with non-integer multipliers (tapecommon.FGen) are run serially and with
+        2..16 threads; every Jacobian cell is compared as a bit pattern: OpenMP vs serial (the property), serial vs a Python
+        transcription of jacobian.cpp (independent oracle), serial and OpenMP vs the Lean model run on Float (blocks executed in a
+        random permutation on the model side).  An AVX build (32-byte aligned packet loads/stores) is part of the quick tier.
 """
-import os, json
+import os, json, time
 from concurrent.futures import ThreadPoolExecutor
 import vbuild, vcheck
 import tapecommon as tc
@@ -15,7 +20,24 @@ import c02
 
 LEVEL = "proof"
 NS = "Adept.Tape."
-REQUIRED = ["C13_omp_blocks_cover", "C13_omp_fwd_spec", "C13_omp_rev_spec", "C13_omp_eq_serial_fwd", "C13_omp_eq_serial_rev", "C13_dispatch"]
+REQUIRED = ["C13_omp_blocks_cover", "C13_omp_fwd_spec", "C13_omp_rev_spec", "C13_omp_eq_serial_fwd", "C13_omp_eq_serial_rev", "C13_dispatch",
+            "C13_omp_eq_serial_fwd_lawfree", "C13_omp_eq_serial_rev_lawfree", "C13_any_two_schedules_fwd_lawfree",
+            "C13_any_two_schedules_rev_lawfree", "C13_rev_blockwise_eq_lanewise", "C13_omp_fwd_cells_lawfree"]
+
+
+# passive waiting: idle OpenMP threads sleep instead of spinning (the machine is shared; semantics unchanged)
+OMP_ENV = {"OMP_NUM_THREADS": "1", "OMP_DYNAMIC": "false", "OMP_WAIT_POLICY": "passive", "GOMP_SPINCOUNT": "0"}
+
+
+def rc_text(rc):
+    """exit status of the driver in words (a negative status is the number of the signal that killed it)"""
+    if isinstance(rc, int) and rc < 0:
+        try:
+            import signal
+            return "killed by %s" % signal.Signals(-rc).name
+        except Exception:
+            return "killed by signal %d" % -rc
+    return "rc=%s" % rc
 
 
 def gen_case(rng, W, threads):
@@ -75,13 +97,13 @@ def gen_case(rng, W, threads):
 
 def run_cases(ctx, exe, label, cases):
     text = "".join("\n".join(ops) + "\n" for ops, _ in cases)
-    impl, model, rc, err = tc.run_pair(exe, text, env={"OMP_NUM_THREADS": "1", "OMP_DYNAMIC": "false"})
+    impl, model, rc, err = tc.run_pair(exe, text, env=OMP_ENV)
     pos = 0
     for ops, meta in cases:
         il, ml = impl[pos:pos + len(ops)], model[pos:pos + len(ops)]
         pos += len(ops)
         if len(il) < len(ops):
-            ctx.violation("implementation stopped on a parallel-Jacobian case (%s): rc=%s %s" % (label, rc, vcheck.san_summary(err)),
+            ctx.violation("implementation stopped on a parallel-Jacobian case (%s): %s %s" % (label, rc_text(rc), vcheck.san_summary(err)),
                           {"kind": "crash", "build": label, "ops": ops, "stderr": err[-3000:], "impl": il})
             break
         verdict = None if meta.get("nonfinite") else c02.oracle_case(ops, meta, il)
@@ -126,20 +148,193 @@ def run_cases(ctx, exe, label, cases):
     ctx.cov["traces_validated_against_impl"] += len(cases)
 
 
+# ------------------------------------------------------------------ binary64 cases
+def gen_fcase(rng, W, threads, n=None, m=None, nonfinite=None):
+    """one binary64 case -> (ops, meta); n, m given: directed sweep"""
+    if nonfinite is None:
+        nonfinite = rng.random() < 0.15
+    g = tc.FGen(rng, nonfinite=nonfinite)
+    g.emit("cfg %d 0 1" % W)
+    for _ in range(rng.randint(2, 6)):
+        g.new()
+    g.emit("nr")
+    g.program(rng.randint(2, 18), nfan=rng.choice([1, 1, 2]))
+    g.emit("hex 1")
+    g.emit("tape")
+    choices = sorted(set([1, W + 1, 2 * W - 1, 2 * W, 2 * W + 1, 3 * W + 1, 3 * W + 2, 4 * W + 3, 5 * W - 1]) - {0, -1})
+    n = rng.choice(choices) if n is None else n
+    m = rng.choice(choices) if m is None else m
+    indep, dep = g.lists(n, m)
+    for k in indep:
+        g.emit("indep %d" % k)
+    for k in dep:
+        g.emit("dep %d" % k)
+    k = n + rng.randint(1, 3)
+    layouts = [(1, 0, m * n), (k, 1, m * k)]
+    if rng.random() < 0.3:
+        io = 2 * m + 1
+        layouts.append((2, io, (m - 1) * 2 + (n - 1) * io + 1))
+    q = []          # (op index, mode, threads, dO, iO, ncells)
+    pairs = []
+    ser = {}
+    g.emit("threads 1")
+    for mode in ("fwd", "rev"):
+        for lay in layouts:
+            ser[(mode, lay)] = len(g.ops); q.append((len(g.ops), mode, 1) + lay); g.emit("jac %s ptr %d %d %d" % ((mode,) + lay))
+    g.emit("ompstat")
+    for th in threads:
+        g.emit("threads %d" % th)
+        for mode in ("fwd", "rev"):
+            for lay in layouts:
+                pairs.append((ser[(mode, lay)], len(g.ops), th)); q.append((len(g.ops), mode, th) + lay)
+                g.emit("jac %s ptr %d %d %d" % ((mode,) + lay))
+        g.emit("ompstat")
+    g.emit("tape")
+    g.emit("threads 1")
+    g.emit("hex 0")
+    return g.ops, {"fqueries": q, "indep": indep, "dep": dep, "n": n, "m": m, "pairs": pairs, "threads": threads, "W": W,
+                   "nonfinite_requested": nonfinite}
+
+
+def fmodel_text(rng, ops, meta, il):
+    """the model's input for one binary64 case, built from the implementation's own tape dump -> (text lines, [(op index, model line index)])"""
+    W = meta["W"]
+    idx = tc.handle_indices(ops, il)
+    ti = ops.index("tape")
+    tape = tc.parse_ftape(il[ti])
+    xi = [idx[k] for k in meta["indep"]]; yi = [idx[k] for k in meta["dep"]]
+    N = 1 + max([0] + xi + yi + [l for l, _ in tape] + [i for _, o in tape for _, i in o])
+    lines = ["ftape %d %d |%s" % (W, N, il[ti].split("|", 1)[1] if "|" in il[ti] else ""),
+             "findep " + " ".join(map(str, xi)), "fdep " + " ".join(map(str, yi))]
+    where = []
+    for oi, mode, th, dO, iO, nc in meta["fqueries"]:
+        count = len(xi) if mode == "fwd" else len(yi)
+        nb = (count + W - 1) // W
+        sched = list(range(nb))
+        if th > 1 and count > W:
+            rng.shuffle(sched)          # the theorems hold for every order of the blocks: the model runs a random one
+        else:
+            sched = []
+        where.append((oi, len(lines)))
+        lines.append(("fjac %s %d %d %d %d %s" % (mode, th, dO, iO, nc, " ".join(map(str, sched)))).rstrip())
+    return lines, where, tape, xi, yi, N
+
+
+def run_fcases(ctx, exe, label, cases):
+    """binary64 cases: OpenMP = serial bit for bit; serial = Python transcription of jacobian.cpp; both = Lean model on Float"""
+    text = "".join("\n".join(ops) + "\n" for ops, _ in cases)
+    impl, rc, err = vcheck.run_impl(exe, [], text, env=OMP_ENV)
+    pos = 0
+    mtext, mwhere = [], []
+    done = []
+    for ops, meta in cases:
+        il = impl[pos:pos + len(ops)]
+        pos += len(ops)
+        if len(il) < len(ops):
+            ctx.violation("implementation stopped on a binary64 parallel-Jacobian case (%s): %s %s" % (label, rc_text(rc), vcheck.san_summary(err)),
+                          {"kind": "crash", "build": label, "ops": ops, "stderr": err[-3000:], "impl": il})
+            break
+        verdict = None
+        try:
+            lines, where, tape, xi, yi, N = fmodel_text(ctx.rng, ops, meta, il)
+        except Exception as e:
+            ctx.violation("unparsable output on a binary64 case (%s): %r" % (label, e), {"kind": "oracle", "build": label, "ops": ops, "impl": il})
+            continue
+        nonfinite = tc.tape_nonfinite(tape)
+        W = meta["W"]
+        # (1) the property: parallel = serial, every cell, bit for bit
+        for a, b, th in meta["pairs"]:
+            if il[a] != il[b]:
+                pa, pb = il[a].split(), il[b].split()
+                d = [i for i in range(min(len(pa), len(pb))) if pa[i] != pb[i]]
+                verdict = ("binary64: Jacobian with %d threads (%s) differs in the bits of cell %s from the serial one: %s vs %s"
+                           % (th, ops[b], d[0] - 1 if d else "?", pb[d[0]] if d else il[b][:80], pa[d[0]] if d else il[a][:80]))
+                break
+        # (2) independent oracle: the serial routine = the same operations in the same order, in Python floats
+        if verdict is None:
+            for oi, mode, th, dO, iO, nc in meta["fqueries"]:
+                if th != 1:
+                    continue
+                exp = tc.fbits_line("P", tc.fjac_oracle(tape, N, W, xi, yi, mode == "fwd", dO, iO, nc))
+                if il[oi] != exp:
+                    pa, pb = il[oi].split(), exp.split()
+                    d = [i for i in range(min(len(pa), len(pb))) if pa[i] != pb[i]]
+                    verdict = ("binary64: serial %s differs in the bits of cell %s from the operation-for-operation transcription "
+                               "of jacobian.cpp: %s vs %s" % (ops[oi], d[0] - 1 if d else "?", pa[d[0]] if d else il[oi][:80], pb[d[0]] if d else exp[:80]))
+                    break
+        tl = [i for i, o in enumerate(ops) if o == "tape"]
+        if verdict is None and il[tl[0]] != il[tl[-1]]:
+            verdict = "the recording changed during the Jacobian computations (binary64 case)"
+        multi = False
+        for o, l in zip(ops, il):
+            if o == "ompstat" and l.startswith("O") and len(l[1:].split()) > 1:
+                multi = True
+        maxops = max([len(o) for _, o in tape] + [0])
+        ctx.notes["f_cases"] = ctx.notes.get("f_cases", 0) + 1
+        ctx.notes["f_cases_nonfinite_tape"] = ctx.notes.get("f_cases_nonfinite_tape", 0) + (1 if nonfinite else 0)
+        ctx.notes["f_cases_with_multiple_threads"] = ctx.notes.get("f_cases_with_multiple_threads", 0) + (1 if multi else 0)
+        ctx.notes["f_short_last_block_fwd"] = ctx.notes.get("f_short_last_block_fwd", 0) + (1 if meta["n"] % W and meta["n"] > W else 0)
+        ctx.notes["f_short_last_block_rev"] = ctx.notes.get("f_short_last_block_rev", 0) + (1 if meta["m"] % W and meta["m"] > W else 0)
+        tc.mult_stats(tape, ctx.notes)
+        hist = ctx.notes.setdefault("f_operands_per_statement", {})
+        for _, o in tape:
+            kk = str(len(o)) if len(o) < 8 else "8+"
+            hist[kk] = hist.get(kk, 0) + 1
+        ctx.notes["f_jacobian_cells_compared"] = ctx.notes.get("f_jacobian_cells_compared", 0) + sum(len(il[b].split()) - 1 for _, b, _ in meta["pairs"])
+        ctx.count_case((label, "f", tuple(ops)), nontrivial=multi,
+                       sample={"build": label, "binary64": True, "n": meta["n"], "m": meta["m"], "W": W, "max_operands": maxops,
+                               "tape": il[tl[0]][:200]})
+        if verdict is not None:
+            ctx.nbad += 1
+            if ctx.nbad <= 2:
+                ctx.violation("%s [build %s]" % (verdict, label), {"kind": "oracle", "build": label, "ops": ops, "impl": il, "message": verdict})
+            continue
+        base = len(mtext)
+        mtext += lines
+        done.append((ops, il, [(oi, base + mi) for oi, mi in where]))
+    # (3) the Lean model on Float, one process for the whole batch
+    if done:
+        ml = vcheck.run_model("tape", "\n".join(mtext) + "\n")
+        for ops, il, where in done:
+            for oi, mi in where:
+                got = ml[mi] if mi < len(ml) else "<missing>"
+                if got != il[oi]:
+                    ctx.cov["disagreements_checked"] += 1
+                    if len(ctx.pending) < 2:
+                        ctx.pending.append({"kind": "correspondence", "correspondence": "AdeptModel/Tape.lean on Float (jacFwd*/jacRev*B) <-> jacobian.cpp",
+                                            "build": label, "ops": ops, "first_difference": {"op": ops[oi], "impl": il[oi][:400], "model": got[:400],
+                                                                                             "model_input": mtext[mi]}})
+                    break
+    ctx.cov["traces_validated_against_impl"] += len(done)
+
+
 def run(ctx, replay):
     thms = [NS + t for t in vcheck.prop_theorems("AdeptProofs/Props/C13.lean", "C13_")]
-    fails = vcheck.lean_gate(ctx, ["AdeptProofs.Props.C13"], thms, required=[NS + r for r in REQUIRED])
+    # Refute/Tape.lean: non-vacuity instances of the law-free theorems over carriers that satisfy no ring law
+    fails = vcheck.lean_gate(ctx, ["AdeptProofs.Props.C13", "AdeptProofs.Refute.Tape"], thms, required=[NS + r for r in REQUIRED])
+    ctx.notes.setdefault("seconds", {})["lean_gate"] = round(time.time() - ctx.t0, 1)
     vs = [("W4", dict(W=4)), ("W3", dict(W=3)), ("sse2", dict(packets="sse2"))]
+    fl = c02.cpu_flags()
+    if "avx" in fl:
+        # AVX packets (W = 4): 32-byte ALIGNED loads/stores of the per-thread working buffers.  Built WITHOUT a sanitizer: ASan's
+        # allocator hands out 32-byte aligned blocks for everything above 48 bytes, the system allocator guarantees 16 only, so
+        # this is the build in which a working buffer that is not obtained with alloc_aligned faults (SIGSEGV = violation with
+        # the op list of the case as input; the driver flushes its output at every `cfg`, so the case blamed is the right one)
+        vs.append(("avx", dict(packets="avx", san="none")))
     if ctx.tier == "thorough":
         vs += [("W1", dict(W=1)), ("W2", dict(W=2)), ("W5", dict(W=5)), ("W8", dict(W=8))]
-        if "avx" in c02.cpu_flags():
-            vs.append(("avx", dict(packets="avx")))
-    with ThreadPoolExecutor(max_workers=len(vs)) as ex:
+        if "avx" in fl:
+            vs.append(("avx-asan", dict(packets="avx")))
+        if "avx512f" in fl:
+            vs += [("avx512", dict(packets="avx512", san="none")), ("avx512-asan", dict(packets="avx512"))]
+    with ThreadPoolExecutor(max_workers=min(len(vs), 4)) as ex:
         exes = list(ex.map(lambda v: tc.build(**v[1]), vs))
+    ctx.notes["seconds"]["builds"] = round(time.time() - ctx.t0 - ctx.notes["seconds"]["lean_gate"], 1)
     ctx.pending, ctx.nbad = [], 0
     ncpu = os.cpu_count() or 2
     maxth = max(2, min(16, ncpu))
-    ncase = 60 if ctx.tier == "quick" else 160
+    ncase = 100 if ctx.tier == "quick" else 160
+    nfcase = 200 if ctx.tier == "quick" else 400
     for (label, kw), exe in zip(vs, exes):
         W = c02.width(kw)
         ctx.curW = W
@@ -155,12 +350,33 @@ def run(ctx, replay):
             else:
                 ths = sorted(set(ctx.rng.sample(range(2, maxth + 1), min(5, maxth - 1)) + [2, maxth]))
             cases.append(gen_case(ctx.rng, W, ths))
+        t0 = time.time()
         run_cases(ctx, exe, label, cases)
+        ctx.notes.setdefault("seconds", {})[label + ":integer"] = round(time.time() - t0, 1)
+        t0 = time.time()
+        # binary64: a directed sweep over every residue of n and m modulo W (short last block of 1..W-1 lanes, two and three
+        # full blocks before it) + random shapes
+        fcases = []
+        for r in range(1, W):
+            for full in (1, 2):
+                fcases.append(gen_fcase(ctx.rng, W, sorted(set([2, ctx.rng.randint(2, maxth)])), n=full * W + r, m=(3 - full) * W + r, nonfinite=False))
+        for i in range(nfcase):
+            ths = sorted(set([2, ctx.rng.randint(3, maxth), maxth])) if i % 3 == 0 else sorted(set([ctx.rng.randint(2, maxth)]))
+            fcases.append(gen_fcase(ctx.rng, W, ths))
+        run_fcases(ctx, exe, label, fcases)
+        ctx.notes["seconds"][label + ":binary64"] = round(time.time() - t0, 1)
     ctx.cov["rule"] = ("random integer tapes; m,n from {1,W,W+1,2W-1,2W,2W+1,3W+1,4W+3,5W}; each case computes forward and reverse "
                        "Jacobians into three raw-pointer layouts serially (threads=1) and with 2..%d OpenMP threads and compares the "
                        "buffers cell for cell with the serial ones, with the product of statement matrices and with the model; the tape "
                        "dump before and after must be identical; non-trivial = hook H3 saw more than one OpenMP thread id processing "
-                       "blocks in that case" % maxth)
+                       "blocks in that case.  binary64 cases (build x [directed sweep: n = W+r, 2W+r and m = 2W+r, W+r for every "
+                       "r in 1..W-1] + random shapes from {1,W+1,2W-1,2W,2W+1,3W+1,3W+2,4W+3,5W-1}): random programs over non-integer "
+                       "doubles (uniform(-2,2), non-dyadic decimals, 10^+-8, 1e+-160 and DBL_MAX/denormals so that products overflow and "
+                       "underflow, signed zeros, +-1; 15%% of the random cases also Inf/NaN), statements with 0..12 operands incl. "
+                       "repeated operands, cancelling pairs, lhs among its operands, and fan-in/fan-out statements whose >=3 terms all "
+                       "depend on one variable that is planted in the independent/dependent lists (half of the time at the LAST "
+                       "position = the short block); 2-3 raw-pointer layouts x forward/reverse x serial + 1..3 thread counts from "
+                       "2..%d; every cell compared as a bit pattern (see notes f_*)" % (maxth, maxth))
     ctx.notes["builds"] = [l for l, _ in vs]
     ctx.assumptions += ["a data race inside the parallel region (e.g. a shared working buffer) is outside the model; it would show only "
                         "unreliably as a differing result", "OpenMP runtime, static schedule and omp_set_num_threads are trusted"]
